@@ -169,6 +169,11 @@ def rule_fanout(program, ctx):
     ge = [s for s in walk_no_nested(fn) if isinstance(s, ast.Assign) and isinstance(strip_await(s.value), ast.Call) and call_name(strip_await(s.value)) == "self.storage.get_event"]
     rec = {s_.targets[0].id for s_ in walk_no_nested(fn) if isinstance(s_, ast.Assign) and isinstance(s_.targets[0], ast.Name) and "reader.read" in ast.unparse(s_.value)}
     arg0 = strip_await(ge[0].value).args[0] if ge and strip_await(ge[0].value).args else None
+    if isinstance(arg0, ast.Name):
+        # a local that holds `<record>.hex()` (bound once)
+        b = [s_ for s_ in stores_of(fn, arg0.id) if isinstance(s_, ast.Assign)]
+        if len(b) == 1:
+            arg0 = b[0].value
     if arg0 is not None and isinstance(arg0, ast.Call) and isinstance(arg0.func, ast.Attribute) and arg0.func.attr == "hex" and not arg0.args and dotted(arg0.func.value) in rec:
         ctx.ok(rid, ge[0], "event = await storage.get_event(<record>.hex())")
     else:
